@@ -271,6 +271,9 @@ func c15c(c *Ctx) {
 		if d.Kind != DefAssign {
 			continue
 		}
+		if isNilIdent(info, d.Rhs) {
+			continue // "nothing resolved": success requires resolved != nil (checked below)
+		}
 		n++
 		src := objOf(info, d.Rhs)
 		site := f.Find(func(x ast.Node) bool { return x == d.Node })
